@@ -217,22 +217,43 @@ theorem spline_reproduces_polyline (pts : List (ℝ × ℝ)) (c : LTerm) :
   rw [centred, interp1_shift, sub_add_cancel]
   exact interp1_at_vertex pts ha hl p hp
 
+/-- the boundary stripping read from the source removes the horizontal face runs at both ends ONLY: what is left is a
+    contiguous part of the given polyline and contains every vertex that is off the face line -/
+theorem spline_strip_keeps_interior (pts : List (ℝ × ℝ)) (hacc : splineAccepts pts = true) :
+    (∃ s t, pts = s ++ strip spline_strip pts ++ t)
+      ∧ ∀ p ∈ pts, isclose p.2 (PyNum.nat 0 : ℝ) = false → p ∈ strip spline_strip pts :=
+  stripFaceRuns_spec pts hacc
+
+example : splineAccepts twinV = true := by
+  simp [splineAccepts, twinV, col, isclose_zero_zero]
+
+/-- why the kind of stripping matters: the mask "both neighbours on the face line" (what the code did before the repair)
+    silently removes the tips of two V-shaped grooves side by side -/
+theorem both_neighbours_strip_drops_interior :
+    ¬ ∀ pts : List (ℝ × ℝ), splineAccepts pts = true →
+      ∀ p ∈ pts, isclose p.2 (PyNum.nat 0 : ℝ) = false → p ∈ strip .bothNeighbours pts := by
+  intro h
+  have := h twinV (by simp [splineAccepts, twinV, col, isclose_zero_zero]) (1, 1) (by simp [twinV])
+    (by simpa using isclose_pos 1 (by norm_num))
+  rw [stripBoth_twinV] at this
+  simp at this
+
 /-- a spline groove does not depend on how densely or evenly its polyline is sampled: inserting any number of collinear
     vertices (such that the boundary stripping still leaves a refinement) changes neither the centring, nor the depth
     function (anywhere, also where it extrapolates), nor width, usable width and depth -/
 theorem spline_refinement_invariant (pts pts' : List (ℝ × ℝ))
-    (h : Refines OnChord (strip pts) (strip pts')) :
-    spline_centre.eval (strip pts') = spline_centre.eval (strip pts)
-      ∧ (∀ z, interp1 (splinePoints spline_centre pts') z = interp1 (splinePoints spline_centre pts) z)
-      ∧ spline_width.eval (splinePoints spline_centre pts') = spline_width.eval (splinePoints spline_centre pts)
-      ∧ spline_usable_default.eval (splinePoints spline_centre pts')
-          = spline_usable_default.eval (splinePoints spline_centre pts)
-      ∧ spline_depth.eval (splinePoints spline_centre pts') = spline_depth.eval (splinePoints spline_centre pts) := by
-  have hc : spline_centre.eval (strip pts') = spline_centre.eval (strip pts) := by
+    (h : Refines OnChord (strip spline_strip pts) (strip spline_strip pts')) :
+    spline_centre.eval (strip spline_strip pts') = spline_centre.eval (strip spline_strip pts)
+      ∧ (∀ z, interp1 (splinePoints spline_strip spline_centre pts') z = interp1 (splinePoints spline_strip spline_centre pts) z)
+      ∧ spline_width.eval (splinePoints spline_strip spline_centre pts') = spline_width.eval (splinePoints spline_strip spline_centre pts)
+      ∧ spline_usable_default.eval (splinePoints spline_strip spline_centre pts')
+          = spline_usable_default.eval (splinePoints spline_strip spline_centre pts)
+      ∧ spline_depth.eval (splinePoints spline_strip spline_centre pts') = spline_depth.eval (splinePoints spline_strip spline_centre pts) := by
+  have hc : spline_centre.eval (strip spline_strip pts') = spline_centre.eval (strip spline_strip pts) := by
     rw [spline_centre_value, spline_centre_value, col0_eq, col0_eq,
       refines_minL Prod.fst chord_fst_min h, refines_maxL Prod.fst chord_fst_max h]
-  have hlast : (col 0 (splinePoints spline_centre pts')).getLastD nan
-      = (col 0 (splinePoints spline_centre pts)).getLastD nan := by
+  have hlast : (col 0 (splinePoints spline_strip spline_centre pts')).getLastD nan
+      = (col 0 (splinePoints spline_strip spline_centre pts)).getLastD nan := by
     simp only [splinePoints, centred, getLastD_shift, hc, refines_getLast h]
   refine ⟨hc, fun z => ?_, ?_, ?_, ?_⟩
   · simp only [splinePoints, centred, interp1_shift, hc, interp1_refines h]
@@ -272,10 +293,32 @@ example (z : ℝ) (h0 : -2 ≤ z) (h1 : z ≤ 2) (x : ℝ) :
 example (ρ : String → ℝ) : ((surfaceX ρ 5 surface_x_specs surface_x_outer).map fun t => -t).reverse
     = surfaceX ρ 5 surface_x_specs surface_x_outer := surface_x_symmetric ρ 5 (by norm_num)
 
+/-- roll of radius 10 on a groove 2 deep: at `x = 3` the bottom of the groove (local radius 8) has risen to
+    `10 − √(64 − 9)`, and the point lies on the circle of radius 8 about the axis -/
+example : (3 : ℝ) ^ 2 + (10 - surfacePoint (fun _ => (10 : ℝ)) surface_y 2 3) ^ 2 = (10 - 2) ^ 2 :=
+  (surface_is_revolution (fun _ => 10) 2 3 (by norm_num)).1
+
+example : surfacePoint (fun _ => (10 : ℝ)) surface_y 2 0 = 2 := surface_at_high_point (fun _ => 10) 2 (by norm_num)
+
+/-- entry point for minimal radius 100, incoming height 30, pass height 20 (hypotheses satisfiable) -/
+example : (100 : ℝ) - Real.sqrt (100 ^ 2 - (Expr.eval (fun n => if n = "roll.min_radius" then (100 : ℝ) else
+    if n = "in_profile.height" then 30 else if n = "height" then 20 else 0) entry_point) ^ 2) = (30 - 20) / 2 := by
+  have := (entry_point_on_bottom_circle (fun n => if n = "roll.min_radius" then (100 : ℝ) else
+    if n = "in_profile.height" then 30 else if n = "height" then 20 else 0) (by simp; norm_num) (by simp; norm_num)).1
+  simpa using this
+
+example : minL (col 0 (centred spline_centre P1)) + maxL (col 0 (centred spline_centre P1)) = 0 :=
+  spline_centre_is_extent_middle P1 (by simp [P1])
+
+example : interp1 (centred spline_centre P0) ((-4 : ℝ) - spline_centre.eval P0) = 4 :=
+  (spline_reproduces_polyline P0 spline_centre).2.2.2 (by simp [Asc, P0]; norm_num) (by simp [P0]) (-4, 4) (by simp [P0])
+
+example (n : ℕ) : mirror (contour σ0 n segments) = contour σ0 n segments := contour_symmetric σ0 n
+
 /-- the polyline `P0 = [(-8,0),(-4,4),(4,4),(8,0)]` and its one-sided, uneven refinement
     `P1 = [(-8,0),(-7,1),(-6,2),(-4,4),(4,4),(8,0)]` give the same spline groove -/
-example : ∀ z, interp1 (splinePoints spline_centre P1) z = interp1 (splinePoints spline_centre P0) z :=
-  (spline_refinement_invariant P0 P1 (by rw [strip_P0, strip_P1]; exact P0_refines_P1)).2.1
+example : ∀ z, interp1 (splinePoints spline_strip spline_centre P1) z = interp1 (splinePoints spline_strip spline_centre P0) z :=
+  (spline_refinement_invariant P0 P1 (by rw [show spline_strip = StripKind.faceRuns from rfl, strip_P0, strip_P1]; exact P0_refines_P1)).2.1
 
 example : P0 ≠ [] ∧ P1 ≠ P0 := by simp [P0, P1]
 
